@@ -3201,7 +3201,12 @@ func (pc *PeerConnection) generateMatchedSDP(
 				}
 				mediaTransceivers = append(mediaTransceivers, transceiver)
 			}
-			mediaSections = append(mediaSections, mediaSection{id: midValue, transceivers: mediaTransceivers})
+			section := mediaSection{id: midValue, transceivers: mediaTransceivers}
+			if !includeUnmatched {
+				// We are answering, the direction has to be a response to the offered one
+				section.offered = direction
+			}
+			mediaSections = append(mediaSections, section)
 		case sdpSemantics == SDPSemanticsUnifiedPlan || sdpSemantics == SDPSemanticsUnifiedPlanWithFallback:
 			if detectedPlanB {
 				return nil, &rtcerr.TypeError{
